@@ -196,14 +196,14 @@ int random_contract(int min, int max)             /* floating-point body not ana
   __CPROVER_ensures(min <= __CPROVER_return_value && __CPROVER_return_value < max && g_tidx == __CPROVER_return_value);
 
 /* the thread is resumed by the worker whose queue accepted it (the main thread is never stolen: myth_steal_body puts it
-   back), on that worker's OS thread; that worker's descriptor then names it as the running thread */
+   back), on that worker's OS thread; that worker's descriptor then names it as the running thread -- the harness
+   pre-sets this_thread of EVERY descriptor to the main thread instead of modelling that store (a store by contract into
+   the descriptor array exhausts memory); the code under proof reads this_thread of the current worker only */
 void suspend_resume_contract(void * from, void * to)
   __CPROVER_requires(g_ctx_saved == 1 && g_passed == 1 && 0 <= g_passed_rank && g_passed_rank < g_nw)
   __CPROVER_requires(from == (void *)&TH.context && 0 <= g_worker_rank && g_worker_rank < g_nw && to == (void *)&g_pool[g_worker_rank].sched.context)
-  __CPROVER_requires(g_pool[g_passed_rank].this_thread == 0)        /* the receiving worker is in its scheduler */
-  __CPROVER_assigns(g_worker_rank, g_passed, g_ctx_saved, g_switched, g_pool[g_passed_rank].this_thread)
-  __CPROVER_ensures(g_worker_rank == g_passed_rank && g_passed == 0 && g_ctx_saved == 0 && g_switched == 1)
-  __CPROVER_ensures(g_pool[g_passed_rank].this_thread == &TH);
+  __CPROVER_assigns(g_worker_rank, g_passed, g_ctx_saved, g_switched)
+  __CPROVER_ensures(g_worker_rank == g_passed_rank && g_passed == 0 && g_ctx_saved == 0 && g_switched == 1);
 
 void cleanup_worker_contract(int rank)
   __CPROVER_requires(rank == g_worker_rank && g_cleanup_calls == 0)        /* a worker cleans up its own descriptor */
@@ -319,12 +319,11 @@ static void setup_migration(void) {
   g_envs = g_pool; g_envs_sz = g_nw;
   for (int k = 0; k < NW_MAX; k++) {                  /* constant bound */
     POOL[k].rank = k;                                 /* established by myth_setup_worker for every worker */
-    POOL[k].this_thread = 0;                          /* the other workers are in their scheduler loop */
+    POOL[k].this_thread = &TH;                        /* see suspend_resume_contract */
     POOL[k].exit_flag = nondet_int();
   }
   g_worker_rank = nondet_int();                       /* finalisation called while the main thread is on ANY worker */
   __CPROVER_assume(0 <= g_worker_rank && g_worker_rank < g_nw);
-  POOL[g_worker_rank].this_thread = &TH;
   TH.env = &POOL[g_worker_rank];
   g_ctx_saved = 0; g_passed = 0; g_passed_rank = -1; g_switched = 0; g_cleanup_calls = 0;
   g_refusals = nondet_int();
